@@ -192,6 +192,18 @@ fn compound_ops<'a>(sp: &'a CompoundStateSpace, spec: &'a Spec, erased: bool) ->
 }
 
 /// Check `ops` (a compound-like space) against the composition law over typed components.
+/// Does `got` equal sqrt(sum t_i^2)? The property states the mathematical value; in floating
+/// point the plain sum of squares and an overflow/underflow-safe (hypot-style, scaled by the
+/// largest term) evaluation are both faithful, and they differ only where a square leaves the
+/// double range (terms below 1e-154 or above 1e154). Either is accepted to 1e-12 relative.
+fn wnorm_matches(got: f64, terms: &[f64]) -> (bool, f64) {
+    let naive = terms.iter().map(|t| t * t).sum::<f64>().sqrt();
+    let m = terms.iter().fold(0.0f64, |m, t| m.max(t.abs()));
+    let scaled = if m == 0.0 || !m.is_finite() { m } else { m * terms.iter().map(|t| (t / m) * (t / m)).sum::<f64>().sqrt() };
+    let close = |want: f64| got == want || (got - want).abs() <= 1e-12 * want.abs().max(1e-300);
+    (close(naive) || close(scaled), if close(naive) { naive } else { scaled })
+}
+
 fn check_law(ctx: &Ctx, b: &mut Batch, r: &mut Sm, spec: &Spec, ops: &Ops, label: &str, n_states: usize) {
     let comps: Vec<CompSp> = match spec.comps.iter().map(CompSp::build).collect::<Result<Vec<_>, _>>() {
         Ok(c) => c,
@@ -208,13 +220,10 @@ fn check_law(ctx: &Ctx, b: &mut Batch, r: &mut Sm, spec: &Spec, ops: &Ops, label
     let slice = |v: &[f64], i: usize| v[offs[i]..offs[i] + spec.comps[i].kind.width()].to_vec();
 
     // resolution
-    let mut acc = 0.0;
-    for (i, c) in comps.iter().enumerate() {
-        acc += (c.lvs() * spec.comps[i].weight).powi(2);
-    }
-    let want_lvs: f64 = acc.sqrt();
+    let terms: Vec<f64> = comps.iter().enumerate().map(|(i, c)| c.lvs() * spec.comps[i].weight).collect();
+    let (lvs_ok, want_lvs) = wnorm_matches(ops.lvs, &terms);
     b.evaluations += 1;
-    if !((ops.lvs - want_lvs).abs() <= 1e-12 * want_lvs.abs().max(1e-300)) {
+    if !lvs_ok {
         rep("resolution-law", format!("longest valid segment {} != sqrt(sum (w_i lvs_i)^2) = {want_lvs}", ops.lvs), &[], &[], 0.0);
     }
 
@@ -259,15 +268,15 @@ fn check_law(ctx: &Ctx, b: &mut Batch, r: &mut Sm, spec: &Spec, ops: &Ops, label
             };
             b.evaluations += 1;
             let d = (ops.distance)(a, bb);
-            let mut acc = 0.0f64;
+            let mut terms = vec![];
             let mut any_pos = false;
             for (i, c) in comps.iter().enumerate() {
                 let di = c.distance(&slice(a, i), &slice(bb, i));
                 any_pos |= di > 0.0;
-                acc += (di * spec.comps[i].weight).powi(2);
+                terms.push(di * spec.comps[i].weight);
             }
-            let want_d = acc.sqrt();
-            if !((d - want_d).abs() <= 1e-12 * want_d.abs().max(1e-300)) && !(d == want_d) {
+            let (d_ok, want_d) = wnorm_matches(d, &terms);
+            if !d_ok {
                 rep("distance-law", format!("compound distance {d} != sqrt(sum (w_i d_i)^2) = {want_d}"), a, bb, 0.0);
             }
             let scratch = &states[(ia * 11 + k * 3 + 5) % states.len()];
